@@ -308,3 +308,80 @@ def fields_same(a, b, names=None):
         if ha is not False and hb is not False:
             out.append(Implies(ha, eq(fld(a, n), fld(b, n))))
     return And(*out)
+
+
+# ------------------------------------------------------------------------------------------- strings
+def fullmatch(pattern, s, flags=0):
+    """the whole string s is in the language of the (published) pattern -- CPython regex semantics"""
+    import re
+    if isinstance(s, str):
+        return re.fullmatch(pattern, s, flags) is not None
+    if not (is_sym(s) and s.k == 'str'):
+        return False
+    from . import models
+    return mk(z3.InRe(s.t, models.regex_to_z3(pattern, flags, 'fullmatch')), 'bool')
+
+
+def is_str(x):
+    if is_sym(x):
+        if x.k in ('str', 'atom'):
+            return True
+        if x.k == 'U':
+            return mk(z3.Or(V.is_s(x.t), V.is_a(x.t)), 'bool')
+        return False
+    return isinstance(x, str)
+
+
+def as_str(x):
+    """the string inside a universal scalar (meaningful only where is_str holds)"""
+    if is_sym(x) and x.k == 'U':
+        return mk(V.sv(x.t), 'str')
+    return x
+
+
+def int_ok(s):
+    """int(s) succeeds.  Symbolically this is the uninterpreted int_ok(s) of the int() model: the model ties it (and int_val)
+    to str.to_int on the paths where the code really converts, so code and specification share the same atoms."""
+    if isinstance(s, str):
+        try:
+            int(s)
+            return True
+        except ValueError:
+            return False
+    from . import models
+    return mk(models.INT_OK(s.t), 'bool')
+
+
+def int_val(s):
+    if isinstance(s, str):
+        return int(s)
+    from . import models
+    return mk(models.INT_VAL(s.t), 'int')
+
+
+def before(s, sep):
+    """part of s before the first occurrence of the 1-char separator  (= s.split(sep)[0] when sep occurs)"""
+    if isinstance(s, str):
+        return s.split(sep)[0]
+    from . import models
+    return mk(models.SPLIT_BEFORE(s.t, z3.StringVal(sep)), 'str')
+
+
+def after(s, sep):
+    """part after the first separator (= s.split(sep, 1)[1]); the empty string when sep does not occur"""
+    if isinstance(s, str):
+        return s.split(sep, 1)[1] if sep in s else ''
+    from . import models
+    return mk(models.SPLIT_AFTER(s.t, z3.StringVal(sep)), 'str')
+
+
+def json_valid(s):
+    if isinstance(s, str):
+        import json
+        try:
+            json.loads(s)
+            return True
+        except ValueError:
+            return False
+    from . import models
+    return mk(models.JSON_VALID(s.t), 'bool')
